@@ -34,7 +34,9 @@ RULE = ("a case = one target (hostname of a given length and alphabet, IPv4/IPv6
         "of that tuple. Non-trivial = the greeting was observed on the wire and decoded by the reference parser.")
 ASSUMPTIONS = [
     "a hostname is any ASCII string (0x21..0x7e) of 1..255 bytes that Python's ipaddress module does not accept as an IP literal; it must be sent byte-identical as ATYP 3",
-    "IP literals: strict dotted quads and RFC 4291 text forms without zone id (rendered by the reference from the packed bytes)",
+    "IP literals: strict dotted quads and RFC 4291 text forms (rendered by the reference from the packed bytes)",
+    "an IPv6 literal with an RFC 4007 zone id ('fe80::1%eth0') has no ATYP 4 encoding: it must be refused with an error, or carried verbatim as a DOMAINNAME; a request for the address without its zone is a different target",
+    "delivery is never re-entrant: feed_data/dataReceived is not called from inside transport.write or a send_data drain callback (Twisted transports never do; the quantifier of C06 is over inputs only)",
     "CONNECT and RESOLVE_PTR of an IP literal must use ATYP 1 / 4 with the packed address; RESOLVE of an IP literal may also carry the literal text as ATYP 3 (Tor accepts both)",
     "the port of RESOLVE / RESOLVE_PTR is not an input of the public API: the PORT field may be 0 or the port handed to _SocksMachine",
     "RESOLVE_PTR of a hostname is outside the model (Tor rejects it): counted, only the greeting clauses are judged",
@@ -56,13 +58,14 @@ ANCHORS = [
 ]
 FLOORS = {
     "quick": {"evaluations": 4500, "greetings_decoded": 4500, "requests_decoded": 2900, "unencodable_judged": 400,
-              "ports_distinct_shard_sum": 900, "checked_after_half_method_reply": 1000,
+              "ports_distinct_shard_sum": 900, "checked_after_half_method_reply": 1000, "zoned_literals_judged": 250,
               "reach:txtorcon.socks:_SocksMachine._send_connect_request": 2000,
               "reach:txtorcon.socks:_SocksMachine._send_resolve_request": 1500,
               "reach:txtorcon.socks:_SocksMachine._send_resolve_ptr_request": 700,
               "reach:txtorcon.socks:TorSocksEndpoint.connect": 700},
     "thorough": {"evaluations": 90000, "greetings_decoded": 90000, "requests_decoded": 60000,
                  "unencodable_judged": 4000, "ports_distinct_shard_sum": 65536, "checked_after_half_method_reply": 14000,
+                 "zoned_literals_judged": 900,
                  "reach:txtorcon.socks:_SocksMachine._send_connect_request": 39000,
                  "reach:txtorcon.socks:_SocksMachine._send_resolve_request": 30000,
                  "reach:txtorcon.socks:_SocksMachine._send_resolve_ptr_request": 17000,
@@ -94,6 +97,10 @@ V6_BOUNDARY = [
     "ff020000000000000000000000000001", "00000000000000010000000000000000", "0123456789abcdef0123456789abcdef",
 ]
 V6_STYLES = ["canonical", "full", "padded", "upper", "dotted", "altzero"]
+ZONES = ["eth0", "2", "wlan0", "lo", "0", "en0.100", "Ethernet_2", "z" * 15]
+V6_ZONED_BASES = ["fe800000000000000000000000000001", "ff0200000000000000000000000000fb",
+                  "fe80000000000000a2999bfffe0e4471", "00000000000000000000000000000001",
+                  "ff020000000000000000000000000001", "fe80000000000000ffffffffffffffff"]
 METHOD_REPLIES = {"ok": (5, 0), "m1": (5, 1), "m2": (5, 2), "mff": (5, 0xFF), "v4": (4, 0), "v0": (0, 0)}
 
 
@@ -163,7 +170,8 @@ def v6_patterns(rnd):
 
 def kind_class(kind):
     return {"ldh": "ldh-name", "label": "ldh-name", "printable": "printable-name", "ipv4": "ipv4-literal",
-            "ipv6": "ipv6-literal", "overlong": "overlong-name", "nonascii": "non-ascii-name"}[kind]
+            "ipv6": "ipv6-literal", "ipv6zone": "ipv6-zoned-literal", "overlong": "overlong-name",
+            "nonascii": "non-ascii-name"}[kind]
 
 
 def input_class(case):
@@ -376,15 +384,16 @@ def judge(case, obs, rec):
 
     req, kind = case["req"], case["kind"]
     unencodable = kind in ("overlong", "nonascii")
-    out_of_model = (req == "RESOLVE_PTR" and kind not in ("ipv4", "ipv6"))
+    zoned = kind == "ipv6zone"
+    out_of_model = (req == "RESOLVE_PTR" and kind not in ("ipv4", "ipv6", "ipv6zone"))
     failed = bool(obs.errors) or (obs.outcome is not None and obs.outcome.fired and not obs.outcome.ok)
     A = obs.phase.get("A", b"")
     if out_of_model:
         rec.count("out_of_model_ptr_of_a_name")
     if not A:
         # nothing was written at all: only an up-front refusal explains that
-        if unencodable or out_of_model:
-            rec.count("unencodable_judged")
+        if unencodable or out_of_model or zoned:
+            rec.count("zoned_literals_judged" if zoned else "unencodable_judged")
             rec.count("refused_before_connecting")
             if not failed:
                 V("unencodable-target-no-error", {"written": A})
@@ -430,6 +439,28 @@ def judge(case, obs, rec):
             V("unencodable-target-sent", {"request": R[:80], "request_len": len(R)})
         elif not failed:
             V("unencodable-target-no-error", {"written": C})
+        return bad, True
+    if zoned:
+        # SOCKS5 has no field for an RFC 4007 zone: the target is either refused, or carried verbatim as a
+        # DOMAINNAME (which denotes exactly the text the caller gave) -- never as the address without its zone
+        rec.count("zoned_literals_judged")
+        if not R:
+            if not failed:
+                V("unencodable-target-no-error", {"written": C})
+            return bad, True
+        try:
+            r, used = S.parse_request(R)
+        except (S.Incomplete, S.Malformed) as e:
+            V("zoned-target-sent-as-other-address", {"request": R[:60], "parser": str(e)})
+            return bad, True
+        rec.count("requests_decoded")
+        if not (r["atyp"] == S.ATYP_DOMAIN and r["addr"] == case["host"].encode("ascii") and used == len(R)
+                and r["ver"] == 5 and r["rsv"] == 0 and r["cmd"] == S.CMD_NAMES[req]
+                and (r["port"] == case["port"] or (req != "CONNECT" and r["port"] == 0))):
+            V("zoned-target-sent-as-other-address", {"request": R[:60], "atyp": r["atyp"], "addr_sent": r["addr"][:40],
+                                                    "target": case["host"]})
+        else:
+            rec.count("zoned_literal_sent_verbatim_as_name")
         return bad, True
     # --- encodable target: exactly one well-formed request
     if not R:
@@ -595,6 +626,19 @@ def cases_literals(spec):
                     out.append(mk(req, "ipv6", host, port, drive, packed=b, msplit=(i % 3 == 0),
                                   final=_rot(["none", "success", "refused"], i),
                                   hostbytes=(drive not in ("machine", "machine-ondata", "factory") and i % 4 == 0)))
+    # IPv6 literals with an RFC 4007 zone id: not expressible as ATYP 4
+    zb = [bytes.fromhex(h) for h in V6_ZONED_BASES] + [b"\xfe\x80" + bytes(6) + bytes(rnd.randrange(256) for _ in range(8))
+                                                        for _ in range(spec.get("nz", 6))]
+    for j, b in enumerate(zb):
+        for zone in ZONES:
+            host = S.ipv6_text(b, _rot(["canonical", "full", "upper", "padded"], i + j)) + "%" + zone
+            for req in ("CONNECT", "RESOLVE", "RESOLVE_PTR"):
+                for drive in drives_for(req):
+                    i += 1
+                    port = _rot(BOUNDARY_PORTS, i) if req == "CONNECT" else 0
+                    out.append(mk(req, "ipv6zone", host, port, drive, packed=b, msplit=(i % 3 == 0),
+                                  final=_rot(["none", "success", "refused"], i),
+                                  hostbytes=(drive not in ("machine", "machine-ondata", "factory") and i % 4 == 0)))
     return out
 
 
@@ -682,13 +726,16 @@ def cases_random(spec):
         elif r < 0.85:
             packed = v6_patterns(rnd)
             kind, host = "ipv6", S.ipv6_text(packed, rnd.choice(V6_STYLES))
-        elif r < 0.93:
+        elif r < 0.88:
+            packed = b"\xfe\x80" + bytes(6) + bytes(rnd.randrange(256) for _ in range(8))
+            kind, host = "ipv6zone", S.ipv6_text(packed, rnd.choice(["canonical", "full", "upper"])) + "%" + rnd.choice(ZONES)
+        elif r < 0.94:
             kind, host, packed = "overlong", ldh_name(rnd, rnd.randint(256, 300), rnd.random() < 0.5), None
         else:
             kind, packed = "nonascii", None
             host = rnd.choice(NONASCII_SAMPLES)
         req = rnd.choice(["CONNECT", "CONNECT", "RESOLVE", "RESOLVE_PTR"])
-        if req == "RESOLVE_PTR" and kind not in ("ipv4", "ipv6"):
+        if req == "RESOLVE_PTR" and kind not in ("ipv4", "ipv6", "ipv6zone"):
             req = "RESOLVE"
         drive = rnd.choice(drives_for(req))
         port = rnd.choice([rnd.randrange(65536), rnd.randrange(65536), rnd.choice(BOUNDARY_PORTS)])
